@@ -168,9 +168,12 @@ CLAIMS: dict[str, tuple[str, str, str, str]] = {
         "from 0, balanced, tree builds; model tied by `miniblock`), and for the container rule blockquote (Props/C02c.lean) "
         "giving q_wellformed with block quotes nested to any depth (tie `qblock`), and for the list rule (Props/C02d.lean: the "
         "token shape of items and lists up to the hidden flags of markTightParagraphs) giving l_wellformed with quotes and lists "
-        "nested in each other to any depth (tie `lblock`). MISSING: that delimiter matching is laminar "
-        "(em/strong/s pairs never cross) — processDelimiters is not modelled; and K5 for the remaining block/inline "
-        "rules (monitored). Both are decided by the oracle: the property's predicate on every stream, recursively, "
+        "nested in each other to any depth (tie `lblock`). The delimiter matching is laminar — pairs_laminar (Props/C02e.lean): "
+        "processDelimiters is modelled statement by statement (openersBottom, jumps, headerIdx, rule of 3) and tied call by call to the "
+        "real function; for every delimiter array with unset ends, whatever the markers, run lengths and open/close flags, the pairs it "
+        "forms are ordered (i < end[i]) and never cross (the invariant gives the jumps array its meaning: a jump from an index outside "
+        "every pair never lands strictly inside one). MISSING: that emphasis/strikethrough postProcess turn exactly those pairs into "
+        "open/close tokens (not modelled); and K5 for the remaining block/inline rules (monitored). Both are decided by the oracle: the property's predicate on every stream, recursively, "
         "incl. a bounded-exhaustive delimiter sweep. Known finding K-C02-1 (parseInline wrapper not flagged block, "
         "pinned by a test).",
         NOTE,
